@@ -6,7 +6,7 @@ from bumble.crypto import builtin as cb
 from bumble.crypto import cryptography as cc
 from pyvc import ext_c14  # noqa: F401  (engine extensions: XOR normal form, ...)
 from pyvc.contracts import (NATIVE_UF, Any, Bool, Bytes, BytesN, Callback, Const, Inst, Int, IntRange, OneOf, Opt, contract, iff,
-                            implies, lemma, model, at, ite, ufb)
+                            implies, lemma, model, at, ite, uf, ufb)
 from spec.crypto import (AES, CMAC, P256_A, P256_B, P256_P, shift_spec, ah_be, bxor, c1_be, cbc_chain, cmac_rfc, cmac_rfc_any, dbl, e_be, f4_be, f5_be, f6_be, g2_be, h6_be,
                          h7_be, on_p256, rev, s1_be)
 
@@ -15,9 +15,16 @@ ENVIRONMENT = [
     'C library and the built-in table-driven _AES (key schedule, S-box rounds) compute FIPS-197 AES is NOT proved (external code / table '
     'arithmetic outside SMT reach); _AES.__init__/_AES.encrypt and the library e/aes_cmac enter as trusted contracts; a seeded native '
     'differential run of both back ends against each other and against the oracle is reported under `bounded`',
-    'P-256 group arithmetic (_JacobianPoint double/add, to_affine, ECDH symmetry, public-key derivation, agreement of the two EccKey classes) '
-    'is not proved: 256-bit non-linear arithmetic; proved are only the on-curve gate of the built-in EccKey.dh (with _EllipticCurve.'
-    'ecdh_shared_secret opaque) and the termination of _JacobianPoint.__mul__; the differential run covers the rest (bounded)',
+    'P-256 group arithmetic (_JacobianPoint double/add, the value of to_affine, ECDH symmetry, the value of the public key, agreement of the VALUES '
+    'of the two EccKey classes) is not proved: 256-bit non-linear arithmetic; scalar multiplication and the affine conversion are uninterpreted '
+    'functions of their operands (trusted contracts __mul__@group / to_affine@group).  Proved over them: the on-curve gate of the built-in EccKey.dh, '
+    'the termination of _JacobianPoint.__mul__, that to_affine reduces its coordinates modulo p, and the byte ENCODINGS: ecdh_shared_secret / '
+    'EccKey.dh return exactly the 32-byte big-endian x coordinate (InvalidPacketError exactly for the point at infinity), EccKey.x / .y the 32-byte '
+    'big-endian coordinates of key * G, for keys from from_private_key_bytes (big-endian scalar) and generate(); the differential run covers the rest (bounded)',
+    'pow(z, -1, p) in to_affine: modelled as "raises ValueError or returns some integer in 0..p-1"; that it never raises for the z that reach it '
+    '(p prime, z reduced and non-zero) is number theory outside the solver: the contract on to_affine lists the ValueError, to_affine@group assumes it away',
+    'secrets.randbelow(n) returns an arbitrary integer in 0..n-1 (model of the VC generator); a generated scalar 0 (probability 2**-256) gives the '
+    'point at infinity, whose published coordinates are 32 zero bytes: the encoding clauses exclude that case explicitly',
     'that the library back end rejects an off-curve point is a property of the `cryptography` package (EllipticCurvePublicNumbers.public_key): '
     'observed in the differential run only',
     'built-in AES-CMAC == RFC 4493 is proved for every message length up to the 2**52 bytes _CMAC accepts and every content, for the one '
@@ -374,36 +381,183 @@ for _n in CMAC_LENGTHS:
 # ---------------------------------------------------------------------------
 P256 = cb._EllipticCurve.SECP256R1()
 assert (P256.p, P256.a, P256.b) == (P256_P, P256_A, P256_B)  # the curve constants of the code are those of FIPS 186-4 D.1.2.3
+model('bumble.crypto.builtin:_JacobianPoint#G', fields=dict(curve=Any, x=Const(P256.g_x), y=Const(P256.g_y), z=Const(1)))
 model(
     'bumble.crypto.builtin:_EllipticCurve',
-    fields=dict(p=Const(P256_P), a=Const(P256_A), b=Const(P256_B), n=Const(P256.n), g_x=Const(P256.g_x), g_y=Const(P256.g_y)),
+    fields=dict(
+        p=Const(P256_P), a=Const(P256_A), b=Const(P256_B), n=Const(P256.n), g_x=Const(P256.g_x), g_y=Const(P256.g_y),
+        _generator_jacobian=Inst('bumble.crypto.builtin:_JacobianPoint#G'),
+    ),
 )
 model('bumble.crypto.builtin:_EllipticCurve.PrivateKey', fields=dict(key=Int, curve=Inst('bumble.crypto.builtin:_EllipticCurve')))
 model('bumble.crypto.builtin:EccKey', fields=dict(private_key=Inst('bumble.crypto.builtin:_EllipticCurve.PrivateKey')))
+# --- the group arithmetic stays uninterpreted: scalar multiplication and the conversion to affine coordinates are
+#     pure functions of the coordinates (real code behind them natively), so that the *encoding* of what they
+#     return can be specified exactly
+def _mul_native(i):
+    def f(x, y, z, k):
+        r = cb._JacobianPoint(P256, x, y, z) * k
+        return (r.x, r.y, r.z)[i]
+
+    return f
+
+
+def _affine_native(i):
+    def f(x, y, z):
+        r = cb._JacobianPoint(P256, x, y, z).to_affine()
+        return (r.x, r.y)[i]
+
+    return f
+
+
+NATIVE_UF['p256_mul_x'], NATIVE_UF['p256_mul_y'], NATIVE_UF['p256_mul_z'] = _mul_native(0), _mul_native(1), _mul_native(2)
+NATIVE_UF['p256_affine_x'], NATIVE_UF['p256_affine_y'] = _affine_native(0), _affine_native(1)
+model('bumble.crypto.builtin:_JacobianPoint', fields=dict(curve=Inst('bumble.crypto.builtin:_EllipticCurve'), x=Int, y=Int, z=Int))
+model('bumble.crypto.builtin:_Point', fields=dict(curve=Inst('bumble.crypto.builtin:_EllipticCurve'), x=Int, y=Int, infinite=Bool))
 contract(
-    'bumble.crypto.builtin:_EllipticCurve.ecdh_shared_secret',
-    key='bumble.crypto.builtin:_EllipticCurve.ecdh_shared_secret@opaque',
-    params=dict(self=Inst('bumble.crypto.builtin:_EllipticCurve'), private_key=Int, other_public_key=Any),
-    returns=BytesN(32),
-    raises={core.InvalidPacketError: None},
+    'bumble.crypto.builtin:_JacobianPoint.__mul__',
+    key='bumble.crypto.builtin:_JacobianPoint.__mul__@group',
+    params=dict(self=Inst('bumble.crypto.builtin:_JacobianPoint'), k=Int),
+    returns=Inst('bumble.crypto.builtin:_JacobianPoint'),
+    ensures=lambda self, k, res: [
+        res.x == uf('p256_mul_x', self.x, self.y, self.z, k),
+        res.y == uf('p256_mul_y', self.x, self.y, self.z, k),
+        res.z == uf('p256_mul_z', self.x, self.y, self.z, k),
+    ],
     modifies=[],
     trusted=True,
-    note='scalar multiplication treated as an opaque function returning 32 bytes or raising for the point at infinity '
-    '(group arithmetic not proved; differential run under `bounded`)',
+    note='scalar multiplication: SOME point that is a function of the operand coordinates and the scalar (uninterpreted; the group '
+    'law is not proved: 256-bit non-linear arithmetic; termination is proved by the contract on __mul__ below)',
 )
+
+
+def affine_of(x, y, z):
+    """(x, y) of the affine point a Jacobian point (x, y, z), z != 0, converts to"""
+    return (uf('p256_affine_x', x, y, z), uf('p256_affine_y', x, y, z))
+
+
+contract(
+    'bumble.crypto.builtin:_JacobianPoint.to_affine',
+    key='bumble.crypto.builtin:_JacobianPoint.to_affine@group',
+    params=dict(self=Inst('bumble.crypto.builtin:_JacobianPoint')),
+    requires=lambda self: [self.curve.p == P256_P],
+    returns=Inst('bumble.crypto.builtin:_Point'),
+    ensures=lambda self, res: [
+        res.infinite == (self.z == 0),
+        implies(self.z != 0, res.x == affine_of(self.x, self.y, self.z)[0] and res.y == affine_of(self.x, self.y, self.z)[1]),
+        implies(self.z == 0, res.x == 0 and res.y == 0),
+        0 <= res.x and res.x < P256_P and 0 <= res.y and res.y < P256_P,
+    ],
+    modifies=[],
+    trusted=True,
+    note='names the affine coordinates as (uninterpreted) functions of the Jacobian ones; the other clauses (infinite iff z == 0, '
+    'coordinates reduced modulo p, (0, 0) for the point at infinity) are the statement PROVED by the contract on to_affine below; '
+    'assumes pow(z, -1, p) does not raise for the z that reach it (p prime, z reduced and non-zero: number theory not proved)',
+)
+contract(
+    'bumble.crypto.builtin:_JacobianPoint.to_affine',
+    prop='C14',
+    params=dict(self=Inst('bumble.crypto.builtin:_JacobianPoint')),
+    ensures=lambda self, res: [
+        res.infinite == (self.z == 0),
+        implies(self.z == 0, res.x == 0 and res.y == 0),
+        0 <= res.x and res.x < P256_P and 0 <= res.y and res.y < P256_P,
+    ],
+    ensures_names=['infinite-iff-z-is-zero', 'infinity-has-zero-coordinates', 'coordinates-reduced-mod-p'],
+    # pow(z, -1, p) raises ValueError for a z without inverse: impossible for the prime p and a reduced z != 0,
+    # which is number theory outside the reach of the solver -- listed, not excluded
+    raises={ValueError: lambda self: [self.z != 0]},
+    modifies=[],
+    inline=['_Point.__init__'],
+    note='whatever the modular inverse is, the affine coordinates handed to the byte encoders are in 0..p-1 (so 32 bytes always suffice)',
+)
+
+
+def ecdh_x(private_key, px, py):
+    """x coordinate of private_key * (px, py) as the built-in back end computes it (uninterpreted group arithmetic)"""
+    mx, my, mz = (uf('p256_mul_x', px, py, 1, private_key), uf('p256_mul_y', px, py, 1, private_key), uf('p256_mul_z', px, py, 1, private_key))
+    return affine_of(mx, my, mz)[0]
+
+
+def ecdh_is_infinity(private_key, px, py):
+    return uf('p256_mul_z', px, py, 1, private_key) == 0
+
+
+def is_be32(b, v):
+    """b is THE 32-byte big-endian encoding of the integer v (what the `cryptography` back end returns for a
+    coordinate / shared secret: int.to_bytes(32, 'big'), leading zero bytes included)"""
+    return len(b) == 32 and int.from_bytes(b, 'big') == v
+
+
+contract(
+    'bumble.crypto.builtin:_EllipticCurve.ecdh_shared_secret',
+    prop='C14',
+    params=dict(self=Inst('bumble.crypto.builtin:_EllipticCurve'), private_key=Int, other_public_key=Inst('bumble.crypto.builtin:_Point')),
+    requires=lambda other_public_key: [not other_public_key.infinite, other_public_key.curve.p == P256_P],
+    returns=BytesN(32),  # (call sites: a fresh 32-byte string constrained by `ensures`; the length is the proved clause secret-is-32-bytes)
+    ensures=lambda self, private_key, other_public_key, res: [
+        len(res) == 32,
+        is_be32(res, ecdh_x(private_key, other_public_key.x, other_public_key.y)),
+        not ecdh_is_infinity(private_key, other_public_key.x, other_public_key.y),
+    ],
+    ensures_names=['secret-is-32-bytes', 'secret-is-big-endian-x-coordinate', 'not-the-point-at-infinity'],
+    raises={core.InvalidPacketError: lambda private_key, other_public_key: [ecdh_is_infinity(private_key, other_public_key.x, other_public_key.y)]},
+    modifies=[],
+    uses=['bumble.crypto.builtin:_JacobianPoint.__mul__@group', 'bumble.crypto.builtin:_JacobianPoint.to_affine@group'],
+    inline=['_JacobianPoint.from_affine', '_JacobianPoint.__init__', '_JacobianPoint.point_at_infinity'],
+    note='byte encoding of the ECDH result, for ANY integer the (uninterpreted) point multiplication / affine conversion return in 0..p-1: '
+    'exactly its 32-byte big-endian encoding, as the `cryptography` back end returns it; InvalidPacketError exactly for the point at infinity',
+)
+contract(
+    'bumble.crypto.builtin:_EllipticCurve.generate_public_key',
+    prop='C14',
+    params=dict(self=Inst('bumble.crypto.builtin:_EllipticCurve'), private_key=Int),
+    requires=lambda self: [self.p == P256_P, self._generator_jacobian.x == P256.g_x, self._generator_jacobian.y == P256.g_y, self._generator_jacobian.z == 1],
+    returns=Inst('bumble.crypto.builtin:_Point'),
+    ensures=lambda self, private_key, res: [
+        res.infinite == public_is_infinity(private_key),
+        implies(not res.infinite, res.x == public_xy(private_key)[0] and res.y == public_xy(private_key)[1]),
+        implies(res.infinite, res.x == 0 and res.y == 0),
+        0 <= res.x and res.x < P256_P and 0 <= res.y and res.y < P256_P,
+    ],
+    ensures_names=['infinite-iff-multiple-is', 'is-the-named-multiple-of-G', 'infinity-has-zero-coordinates', 'coordinates-reduced-mod-p'],
+    modifies=[],
+    uses=['bumble.crypto.builtin:_JacobianPoint.__mul__@group', 'bumble.crypto.builtin:_JacobianPoint.to_affine@group'],
+    note='public point = to_affine(private_key * G) with G the generator of FIPS 186-4 D.1.2.3 (group arithmetic uninterpreted)',
+)
+
+
+def public_xy(private_key):
+    """affine coordinates of private_key * G as the built-in back end computes them (uninterpreted group arithmetic)"""
+    g = (P256.g_x, P256.g_y, 1)
+    return affine_of(uf('p256_mul_x', g[0], g[1], g[2], private_key), uf('p256_mul_y', g[0], g[1], g[2], private_key), uf('p256_mul_z', g[0], g[1], g[2], private_key))
+
+
+def public_is_infinity(private_key):
+    return uf('p256_mul_z', P256.g_x, P256.g_y, 1, private_key) == 0
 
 
 def peer_point_on_curve(public_key_x, public_key_y):
     return on_p256(int.from_bytes(public_key_x, 'big'), int.from_bytes(public_key_y, 'big'))
 
 
+def dh_x(self, public_key_x, public_key_y):
+    return ecdh_x(self.private_key.key, int.from_bytes(public_key_x, 'big'), int.from_bytes(public_key_y, 'big'))
+
+
 contract(
     'bumble.crypto.builtin:EccKey.dh',
     prop='C14',
     params=dict(self=Inst('bumble.crypto.builtin:EccKey'), public_key_x=BytesN(32), public_key_y=BytesN(32)),
-    # from the statement: a shared secret is produced only for a point of the curve ...
-    ensures=lambda public_key_x, public_key_y, res: [peer_point_on_curve(public_key_x, public_key_y), len(res) == 32],
-    ensures_names=['secret-only-for-on-curve-point', 'secret-is-32-bytes'],
+    returns=BytesN(32),
+    # from the statement: a shared secret is produced only for a point of the curve; it has the form the library
+    # back end gives it: the 32-byte big-endian x coordinate of the shared point ...
+    ensures=lambda self, public_key_x, public_key_y, res: [
+        peer_point_on_curve(public_key_x, public_key_y),
+        len(res) == 32,
+        is_be32(res, dh_x(self, public_key_x, public_key_y)),
+    ],
+    ensures_names=['secret-only-for-on-curve-point', 'secret-is-32-bytes', 'secret-is-big-endian-x-coordinate'],
     # ... and a point that is not on the curve is rejected the way the library back end rejects it
     # (InvalidPacketError is a subclass of ValueError: listed first so that it is matched first)
     raises={
@@ -411,16 +565,63 @@ contract(
         ValueError: lambda public_key_x, public_key_y: [not peer_point_on_curve(public_key_x, public_key_y)],
     },
     modifies=[],
-    uses=['bumble.crypto.builtin:_EllipticCurve.ecdh_shared_secret@opaque'],
+    uses=['bumble.crypto.builtin:_EllipticCurve.ecdh_shared_secret'],
     inline=['_Point.__init__', '_EllipticCurve.is_on_curve'],
     note='the key is on SECP256R1, the only curve EccKey.generate / from_private_key_bytes construct (class model: constants of '
     '_EllipticCurve.SECP256R1()); ValueError is what the library back end raises for an invalid point '
     '(EllipticCurvePublicNumbers.public_key)',
 )
 
+# --- the public key as the two back ends publish it: EccKey.x / EccKey.y are 32 bytes, big-endian
+for _c in ('x', 'y'):
+    contract(
+        f'bumble.crypto.builtin:EccKey.{_c}',
+        prop='C14',
+        params=dict(self=Inst('bumble.crypto.builtin:EccKey')),
+        returns=BytesN(32),
+        ensures=(lambda i: lambda self, res: [
+            len(res) == 32,
+            implies(not public_is_infinity(self.private_key.key), is_be32(res, public_xy(self.private_key.key)[i])),
+        ])(('x', 'y').index(_c)),
+        ensures_names=['coordinate-is-32-bytes', 'coordinate-is-big-endian'],
+        modifies=[],
+        uses=['bumble.crypto.builtin:_EllipticCurve.generate_public_key'],
+        note=f'EccKey.{_c} (functools.cached_property: the function behind it) == 32-byte big-endian encoding of the {_c} coordinate of key * G',
+    )
+
+
+ECC_LEMMA = dict(
+    prop='C14',
+    uses=['bumble.crypto.builtin:EccKey.x', 'bumble.crypto.builtin:EccKey.y', 'bumble.crypto.builtin:EccKey.dh'],
+    inline=['EccKey.from_private_key_bytes', 'EccKey.generate', 'EccKey.__init__', '_EllipticCurve.SECP256R1', '_EllipticCurve.generate_private_key', '_EllipticCurve.__post_init__', '_EllipticCurve.__init__', '_EllipticCurve.PrivateKey.__init__', '_JacobianPoint.__init__'],
+)
+
+
+def public_key_is_encoded(key):
+    d = key.private_key.key
+    kx, ky = key.x, key.y
+    assert len(kx) == 32 and len(ky) == 32, 'public-key-is-two-32-byte-strings'
+    assert implies(not public_is_infinity(d), int.from_bytes(kx, 'big') == public_xy(d)[0]), 'x-is-big-endian'
+    assert implies(not public_is_infinity(d), int.from_bytes(ky, 'big') == public_xy(d)[1]), 'y-is-big-endian'
+
+
+def lemma_ecc_key_from_bytes(d_bytes):
+    key = cb.EccKey.from_private_key_bytes(d_bytes)
+    assert key.private_key.key == int.from_bytes(d_bytes, 'big'), 'scalar-is-big-endian'
+    public_key_is_encoded(key)
+
+
+def lemma_ecc_key_generated():
+    key = cb.EccKey.generate()
+    assert 0 <= key.private_key.key and key.private_key.key < P256_N, 'scalar-below-group-order'
+    public_key_is_encoded(key)
+
+
+lemma('ecc_key_from_bytes_public_encoding', lemma_ecc_key_from_bytes, params=dict(d_bytes=BytesN(32)), note='EccKey.from_private_key_bytes(d): big-endian scalar; x and y are the 32-byte big-endian encodings of the (uninterpreted) coordinates of d * G', **ECC_LEMMA)
+lemma('ecc_key_generated_public_encoding', lemma_ecc_key_generated, params={}, note='EccKey.generate(): scalar in 0..n-1 (secrets.randbelow), x and y 32 bytes big-endian', **ECC_LEMMA)
+
 
 # --- scalar multiplication: termination of the double-and-add loop only (no arithmetic claim)
-model('bumble.crypto.builtin:_JacobianPoint', fields=dict(curve=Inst('bumble.crypto.builtin:_EllipticCurve'), x=Int, y=Int, z=Int))
 for _m in ('__add__', 'double'):
     contract(
         f'bumble.crypto.builtin:_JacobianPoint.{_m}',
